@@ -50,6 +50,14 @@ pub enum Spec17 {
     /// the library's own MemSource (its len_hint divides by the channel count) through the
     /// stream-level entry point
     MemSourceEnc { mt: bool, channels: usize, bps: usize, rate: usize },
+    /// frame-level entry point on a buffer that holds no sample (block size 0): how = 0 never
+    /// filled, 1 filled with an empty slice, 2 filled, then filled with an empty slice
+    FrameEmpty { channels: usize, how: u8, bytes: bool },
+    /// with_size(64) -> resize(new_size) -> fill of min(new_size, 70000).max(10) samples ->
+    /// encode_fixed_size_frame: a block size outside 1..=32767 must be refused, not truncated
+    FrameAfterResize { channels: usize, new_size: usize, bytes: bool },
+    /// Context::new(bps, channels) with a channel count outside 1..=8, then a fill
+    ContextChannels { channels: usize, bytes: bool },
 }
 
 fn channel_values() -> Vec<usize> {
@@ -191,6 +199,21 @@ pub fn grid17() -> Vec<Spec17> {
         }
     }
     for bytes in [false, true] {
+        for channels in [1usize, 2, 3, 8] {
+            for how in 0..3u8 {
+                g.push(Spec17::FrameEmpty { channels, how, bytes });
+            }
+        }
+        for channels in [1usize, 2] {
+            for new_size in [0usize, 1, 31, 32767, 32768, 40000, 65535, 65536, 65536 + 100, 70000] {
+                g.push(Spec17::FrameAfterResize { channels, new_size, bytes });
+            }
+        }
+        for channels in [0usize, 9, 256, M] {
+            g.push(Spec17::ContextChannels { channels, bytes });
+        }
+    }
+    for bytes in [false, true] {
         for channels in [1usize, 2, 8] {
             for (cap, new_size) in [(100usize, 150usize), (150, 100), (64, 32), (32, 64), (4096, 32), (100, 101)] {
                 for samples in [new_size - 1, new_size, new_size + 1, cap.max(new_size), cap.max(new_size) + 1, new_size + new_size / 3, 2 * new_size] {
@@ -297,6 +320,25 @@ fn domain17(s: &Spec17) -> Dom {
                 Dom::Invalid
             } else {
                 Dom::Valid
+            }
+        }
+        Spec17::FrameEmpty { .. } => Dom::Invalid,
+        // a frame (possibly the short last one) holds 1..=32767 samples
+        Spec17::FrameAfterResize { new_size, .. } => {
+            if (1..=32767).contains(new_size) {
+                Dom::Valid
+            } else {
+                Dom::Invalid
+            }
+        }
+        // Context::new cannot refuse; the fill is the first call that can. Zero channels must be
+        // an error (it used to divide by zero). A Context is not a frame buffer and more than 8
+        // channels harm nothing there (it hashes and counts): observed, not judged.
+        Spec17::ContextChannels { channels, .. } => {
+            if *channels == 0 {
+                Dom::Invalid
+            } else {
+                Dom::Unlisted
             }
         }
     }
@@ -609,6 +651,55 @@ fn exec17(s: &Spec17) -> String {
                     Err(_) => "Err".into(),
                 }
             }
+            Spec17::FrameEmpty { channels, how, bytes } => {
+                let mut fb = FrameBuf::with_size(*channels, 64).unwrap();
+                let fill = |fb: &mut FrameBuf, n: usize| if *bytes { fb.fill_le_bytes(&vec![1u8; n * channels * 2], 2) } else { fb.fill_interleaved(&vec![3i32; n * channels]) };
+                if *how == 2 && fill(&mut fb, 40).is_err() {
+                    return "Err".into();
+                }
+                if *how >= 1 && fill(&mut fb, 0).is_err() {
+                    return "Err".into();
+                }
+                let v = enc::verified(&cfg).unwrap();
+                let si = StreamInfo::new(44100, *channels, 16).unwrap();
+                match flacenc::encode_fixed_size_frame(&v, &fb, 0, &si) {
+                    Ok(f) => format!("Ok-WRONG:a frame of {} samples from a buffer holding none", f.block_size()),
+                    Err(_) => "Err".into(),
+                }
+            }
+            Spec17::FrameAfterResize { channels, new_size, bytes } => {
+                let mut fb = FrameBuf::with_size(*channels, 64).unwrap();
+                fb.resize(*new_size);
+                let n = if *new_size == 0 { 10 } else { *new_size };
+                let r = if *bytes { fb.fill_le_bytes(&vec![1u8; n * channels * 2], 2) } else { fb.fill_interleaved(&vec![3i32; n * channels]) };
+                if r.is_err() {
+                    return "Err".into();
+                }
+                let v = enc::verified(&cfg).unwrap();
+                let si = StreamInfo::new(44100, *channels, 16).unwrap();
+                match flacenc::encode_fixed_size_frame(&v, &fb, 0, &si) {
+                    Ok(f) => {
+                        let bytes = enc::to_bytes(&f).unwrap_or_default();
+                        let mut issues = vec![];
+                        let inf = refdec::StreamInfoRaw { rate: 44100, channels: *channels as u32, bps: 16, ..Default::default() };
+                        let coded = refdec::parse_frame(&bytes, 0, Some(&inf), None, &mut issues).map(|fr| fr.header.block_size).unwrap_or(0);
+                        if f.block_size() == n && coded == n {
+                            "Ok".into()
+                        } else {
+                            format!("Ok-WRONG:a fill of {n} samples gives a frame whose header states {coded} (accessor {})", f.block_size())
+                        }
+                    }
+                    Err(_) => "Err".into(),
+                }
+            }
+            Spec17::ContextChannels { channels, bytes } => {
+                let mut c = flacenc::source::Context::new(16, *channels);
+                let r = if *bytes { c.fill_le_bytes(&[1u8; 32], 2) } else { c.fill_interleaved(&[3i32; 16]) };
+                match r {
+                    Ok(()) => format!("Ok-WRONG:a context of {channels} channels took a block and counts {} samples", c.total_samples()),
+                    Err(_) => "Err".into(),
+                }
+            }
         }
     });
     match r {
@@ -643,6 +734,9 @@ fn spec17_class(s: &Spec17) -> String {
         Spec17::StreamBadSample { mt, workers, channels, blocks, tail, all_bad, ch } => format!("encode_with_fixed_block_size[{}, W={workers}]({channels} ch x 16 bit, {blocks} blocks of 64 + {tail}: {})", if *mt { "mt" } else { "st" }, if *all_bad { "every sample is 24-bit material".to_string() } else { format!("last sample of channel {ch} = 40000") }),
         Spec17::FillRagged { target, bytes, channels, cap, bps, whole, extra } => format!("{}::{}(ch={},cap={},bps={}: {} whole inter-channel samples + {} stray {})", ["FrameBuf", "Context", "(FrameBuf,Context)"][*target as usize], if *bytes { "fill_le_bytes" } else { "fill_interleaved" }, channels, cap, bps, whole, extra, if *bytes { "bytes" } else { "values" }),
         Spec17::FillAfterResize { bytes, channels, cap, new_size, samples } => format!("FrameBuf::with_size(ch={channels},{cap}) -> resize({new_size}) -> {}({samples} samples per channel)", if *bytes { "fill_le_bytes" } else { "fill_interleaved" }),
+        Spec17::FrameEmpty { channels, how, bytes } => format!("encode_fixed_size_frame(FrameBuf of {channels} ch x 64 {}, {})", ["never filled", "filled with an empty slice", "filled, then filled with an empty slice"][*how as usize], if *bytes { "bytes" } else { "ints" }),
+        Spec17::FrameAfterResize { channels, new_size, bytes } => format!("FrameBuf::with_size(ch={channels},64) -> resize({}) -> {} of that many samples -> encode_fixed_size_frame", v(*new_size), if *bytes { "fill_le_bytes" } else { "fill_interleaved" }),
+        Spec17::ContextChannels { channels, bytes } => format!("Context::new(16, channels={}) -> {}", v(*channels), if *bytes { "fill_le_bytes" } else { "fill_interleaved" }),
     }
 }
 
@@ -691,6 +785,9 @@ fn spec17_sig(s: &Spec17, outcome: &str) -> String {
         Spec17::StreamBadSample { mt, all_bad, .. } => format!("encode_stream[{}]|{}", if *mt { "mt" } else { "st" }, if *all_bad { "all-samples" } else { "sample-in-last-block" }),
         Spec17::FillRagged { target, bytes, .. } => format!("{}::{}|ragged-length", ["FrameBuf", "Context", "Tuple"][*target as usize], if *bytes { "fill_le_bytes" } else { "fill_interleaved" }),
         Spec17::FillAfterResize { bytes, .. } => format!("FrameBuf::resize+{}|too-long", if *bytes { "fill_le_bytes" } else { "fill_interleaved" }),
+        Spec17::FrameEmpty { .. } => "encode_frame|empty-buffer".into(),
+        Spec17::FrameAfterResize { new_size, .. } => format!("FrameBuf::resize+encode_frame|{}", if *new_size == 0 { "size0" } else { "block-size" }),
+        Spec17::ContextChannels { .. } => "Context::fill|channels".into(),
     };
     format!("C17|{what}|{kind}")
 }
